@@ -552,6 +552,43 @@ func families(quick bool) []family {
 		return single(b, o, styles8[d[3]])
 	})
 
+	// ---------------------------------------------------------- boundary ids in every id-carrying place
+	// ids: placeholder -1, int32 limits, 2^40 and beyond (their bits reach the
+	// type bits of packed object ids); kinds node/way/relation; the id lands in
+	// the element id, in nd/member refs, in changeset ids or in all of them;
+	// placements: <osm>, each osmChange block, a bare element in each diff
+	// action type, <old>+<new> of each diff action type.
+	wheres := []uint{xmlgen.IDAtElem, xmlgen.IDAtNdRef | xmlgen.IDAtMemberRef, xmlgen.IDAtChangeset, xmlgen.IDAtAll}
+	add("id-range", []int{len(xmlgen.IDRange), 3, 10, len(wheres), 2}, func(d []int, _ int) doc {
+		b := xmlgen.NewB(47)
+		id := xmlgen.IDRange[d[0]]
+		kind := xmlgen.KindNode + d[1]
+		forced := func() xmlgen.Obj {
+			b.ForceID, b.ForceWhere = &id, wheres[d[3]]
+			o := b.Full(kind)
+			b.ForceID = nil
+			return o
+		}
+		st := styles8[d[4]*3]
+		desc := fmt.Sprintf("id %d kind %s placement %d where %#x", id, xmlgen.KindNames[kind], d[2], wheres[d[3]])
+		switch pl := d[2]; {
+		case pl == 0:
+			x := b.OSMDocOf(1, []xmlgen.Obj{b.Small(kind), forced(), b.Small(kind)})
+			return doc{kind: "osm", root: x.Root, want: x.Want, order: x.Order, style: st, desc: desc}
+		case pl <= 3:
+			x := b.ChangeDocOf(1, []xmlgen.Block{{Action: actNames[pl-1], Objs: []xmlgen.Obj{b.Small(kind), forced(), b.Small(xmlgen.KindNode)}}})
+			return doc{kind: "osmChange", root: x.Root, want: x.Want, order: x.Order, style: st, desc: desc}
+		case pl <= 6:
+			o := forced()
+			n := b.Small(xmlgen.KindNode)
+			x := b.DiffDocOf([]xmlgen.ActionCfg{{Type: actNames[pl-4], Direct: &o}, {Type: "create", Direct: &n}}, nil)
+			return doc{kind: "diff", root: x.Root, want: x.Want, order: x.Order, style: st, desc: desc}
+		default:
+			x := b.DiffDocOf([]xmlgen.ActionCfg{{Type: actNames[pl-7], HasOld: true, Old: []xmlgen.Obj{forced()}, HasNew: true, New: []xmlgen.Obj{forced()}}}, nil)
+			return doc{kind: "diff", root: x.Root, want: x.Want, order: x.Order, style: st, desc: desc}
+		}
+	})
+
 	// ---------------------------------------------------------- spellings of numbers and booleans
 	numForms := []string{"0", "-0.0", "90", "1e-7", "51.50740000", ".5", "-180.0000000", "007.25"}
 	boolForms := []string{"true", "false"}
@@ -665,11 +702,14 @@ func checkDoc(r *kit.Run, c Case, d doc) {
 	case "diff":
 		got = &osm.Diff{}
 	}
-	if err := xml.Unmarshal([]byte(text), got); err != nil {
+	if err, pan := guard(func() error { return xml.Unmarshal([]byte(text), got) }); pan != "" {
+		// a panic inside the library is an observation about this document, not the end of the run
+		r.Violation("decode-panic/"+d.kind, fmt.Sprintf("%s: xml.Unmarshal panicked: %s\ndocument: %s", info, pan, clip(text, 700)), c)
+		got = nil
+	} else if err != nil {
 		r.Violation(key("decode-error", d, ""), fmt.Sprintf("%s: %v\ndocument: %s", info, err, clip(text, 700)), c)
 		return
-	}
-	if df := osmeq.Diff(d.want, got); df != "" {
+	} else if df := osmeq.Diff(d.want, got); df != "" {
 		r.Violation(key("decode", d, osmeq.Path(df)), fmt.Sprintf("%s: model != decoded at %s\ndocument: %s", info, df, clip(text, 700)), c)
 	}
 
@@ -687,10 +727,17 @@ func checkDoc(r *kit.Run, c Case, d doc) {
 	// (b) the streaming scanner yields the model's objects in document order
 	sc := osmxml.New(context.Background(), bytes.NewReader([]byte(text)))
 	var objs []osm.Object
-	for sc.Scan() {
-		objs = append(objs, sc.Object())
-	}
+	_, pan := guard(func() error {
+		for sc.Scan() {
+			objs = append(objs, sc.Object())
+		}
+		return nil
+	})
 	sc.Close()
+	if pan != "" {
+		r.Violation("scan-panic/"+d.kind, fmt.Sprintf("%s: osmxml.Scanner panicked after %d objects: %s\ndocument: %s", info, len(objs), pan, clip(text, 700)), c)
+		return
+	}
 	if err := sc.Err(); err != nil && err != osm.ErrScannerClosed && err != io.EOF {
 		r.Violation(key("scan-error", d, ""), fmt.Sprintf("%s: %v\ndocument: %s", info, err, clip(text, 700)), c)
 		return
@@ -733,6 +780,19 @@ func checkDoc(r *kit.Run, c Case, d doc) {
 	}
 }
 
+// guard runs f and turns a panic into a description instead of killing the run.
+func guard(f func() error) (err error, panicked string) {
+	defer func() {
+		if p := recover(); p != nil {
+			panicked = fmt.Sprint(p)
+			if panicked == "" {
+				panicked = "panic with empty value"
+			}
+		}
+	}()
+	return f(), ""
+}
+
 func types(objs []osm.Object) []string {
 	var out []string
 	for _, o := range objs {
@@ -746,7 +806,7 @@ func main() {
 		r.Rule("complete mixed-radix products per family: per-kind presence lattices of every optional attribute/child (plus nested nd/update/member/comment lattices), " +
 			"child arrangements, every string position x text class x entity style x quoting, layouts x self-closing x quoting x attribute orders (all permutations up to 4 attributes, rotations of the order and of its reversal beyond), " +
 			"an unknown attribute / element at every position, <osm> over every subset of the 7 kinds x root attribute subsets x 3 orderings, osmChange over every sequence of <=4 action blocks x 0-2 elements per block, " +
-			"augmented diffs over type x direct element x old x new x order. A document is non-trivial when it holds at least one object; distinct = distinct (family, document text).")
+			"augmented diffs over type x direct element x old x new x order, boundary ids (-1, int32 limits, 2^31, 2^40, 2^40+1, 2^44+5, 2^62) x node/way/relation x {element id, nd/member refs, changeset ids, all} x every placement (<osm>, each osmChange block, bare element and old/new of each diff action type). A document is non-trivial when it holds at least one object; distinct = distinct (family, document text).")
 		r.Assume("documents are written by gen/xmlgen (no encoding/xml, no /repo code); the expected values are assembled next to the text from the same constants; strconv.ParseFloat and package time are trusted for the value of a decimal / a calendar date")
 		r.Assume("equality is gen/osmeq: nil==empty, times as instants, an empty changeset discussion equals an absent one")
 		r.Assume("clause scan is applied to all three document types: the scanner dispatches on element names wherever they occur, so its object stream is defined for osmChange and augmented diffs too")
